@@ -34,7 +34,21 @@ Words(kd, r, c) ==
       [] kd = "padded" -> <<"q" \o Tag(r, c)>>
       [] kd = "uni"    -> <<"~u" \o Tag(r, c)>>
 
-\* a table: [nr, nc, kind |-> [1..nr -> [1..nc -> CellKinds]], hdr |-> BOOLEAN (first row is a
+\* Header marking of the SOURCE (hm): which rows the source format marks as header rows
+\*   "none"   no row          "first"  row 1            "lead2" / "lead3"  the first two / three rows
+\*   "mid"    row 2 only (a marked row that is not at the top)          "all"  every row
+\* (DOCX w:tblHeader rows, ODT table:table-header-rows, HTML thead / th rows, model.Cell.IsHeader,
+\* PPTX firstRow).  The marking never changes what must be read back: the same nr x nc grid, i.e. one
+\* delimiter row directly after the first line of the pipe table.
+HMarks == {"none", "first", "lead2", "lead3", "mid", "all"}
+HMarkFits(hm, nr) == CASE hm = "lead2" -> nr >= 2 [] hm = "lead3" -> nr >= 3 [] hm = "mid" -> nr >= 2 [] OTHER -> TRUE
+HdrRowsOf(hm, nr) == CASE hm = "none" -> {} [] hm = "first" -> {1} [] hm = "lead2" -> {1, 2} [] hm = "lead3" -> {1, 2, 3}
+                       [] hm = "mid" -> {2} [] hm = "all" -> 1..nr
+\* the number of marked rows at the top of the table
+LeadMarked(hm, nr) == CASE hm = "none" -> 0 [] hm = "first" -> 1 [] hm = "lead2" -> 2 [] hm = "lead3" -> 3
+                        [] hm = "mid" -> 0 [] hm = "all" -> nr
+
+\* a table: [nr, nc, kind |-> [1..nr -> [1..nc -> CellKinds]], hm |-> header marking, hdr |-> BOOLEAN (first row is a
 \* header row in the source), m |-> at most one merged cell [r, c, rs, cs] (r = 0: none)]
 NoMerge == [r |-> 0, c |-> 0, rs |-> 1, cs |-> 1]
 HasMerge(t)      == t.m.r > 0
@@ -55,7 +69,7 @@ SrcCell(t, r, c) == [raw |-> Raw(t.kind[r][c], r, c), kind |-> t.kind[r][c], cov
 Src(t) == [r \in 1..t.nr |-> [c \in 1..t.nc |-> SrcCell(t, r, c)]]
 
 \* the "special" features of a table (evidence: non-trivial cases; signatures)
-Special(t) == (\E r \in 1..t.nr, c \in 1..t.nc : t.kind[r][c] # "plain") \/ HasMerge(t) \/ ~t.hdr
+Special(t) == (\E r \in 1..t.nr, c \in 1..t.nc : t.kind[r][c] # "plain") \/ HasMerge(t) \/ t.hm # "first"
 
 \* ---------------------------------------------------------------- headings
 Min(a, b) == IF a < b THEN a ELSE b
